@@ -32,11 +32,23 @@ impl Act {
     }
 }
 
+/// Where the share counter starts (`at=` prefix key).
+#[derive(Clone, Copy, Debug, PartialEq, Eq)]
+pub enum Start {
+    /// the counter counts the real handles
+    Normal,
+    /// `at=ceil`: forced to the share-count ceiling (stored value `usize::MAX - 1`)
+    Ceil,
+    /// `at=ceil-1`: one below the ceiling
+    CeilMinus1,
+}
+
 #[derive(Clone, Debug)]
 pub struct Prog {
     /// initial number of handles per thread
     pub h: Vec<usize>,
     pub threads: Vec<Vec<Act>>,
+    pub start: Start,
 }
 
 impl Prog {
@@ -47,8 +59,12 @@ impl Prog {
             _ => ("", line),
         };
         let mut h: Option<Vec<usize>> = None;
+        let mut start = Start::Normal;
         for w in opts.split_whitespace() {
             match w.split_once('=') {
+                Some(("at", "ceil")) => start = Start::Ceil,
+                Some(("at", "ceil-1")) => start = Start::CeilMinus1,
+                Some(("at", v)) => return Err(format!("bad at= value `{v}` (ceil or ceil-1)")),
                 Some(("h", v)) => {
                     h = Some(
                         v.split(',')
@@ -102,26 +118,59 @@ impl Prog {
                 }
             }
         }
-        Ok(Prog { h, threads })
+        Ok(Prog { h, threads, start })
     }
 
-    /// Canonical text, understood by both sides.
-    pub fn line(&self) -> String {
-        let body = self
-            .threads
+    fn body(&self) -> String {
+        self.threads
             .iter()
             .map(|t| t.iter().map(Act::text).collect::<Vec<_>>().join(" "))
             .collect::<Vec<_>>()
-            .join(" | ");
-        if self.h.iter().all(|&x| x == 1) {
+            .join(" | ")
+    }
+
+    fn h_text(h: &[usize]) -> String {
+        h.iter().map(|x| x.to_string()).collect::<Vec<_>>().join(",")
+    }
+
+    /// Canonical loomdrive text.
+    pub fn line(&self) -> String {
+        let body = self.body();
+        let at = match self.start {
+            Start::Normal => "",
+            Start::Ceil => "at=ceil ",
+            Start::CeilMinus1 => "at=ceil-1 ",
+        };
+        if self.start == Start::Normal && self.h.iter().all(|&x| x == 1) {
             body
         } else {
-            format!(
-                "h={} : {}",
-                self.h.iter().map(|x| x.to_string()).collect::<Vec<_>>().join(","),
-                body
-            )
+            format!("{at}h={} : {}", Self::h_text(&self.h), body)
         }
+    }
+
+    /// The line sent to the Lean driver.  Programs started at the ceiling are mapped to a small
+    /// model ceiling `C = k + 4` (`k` = number of program handles) and a PHANTOM extra thread
+    /// with an empty program that holds all the remaining shares (including main's own spare
+    /// handle): `ceil=C h=h0,…,P : prog0 | … | ` with `P = C + 1 - k` (`at=ceil`) or `C - k`
+    /// (`at=ceil-1`).
+    pub fn lean_line(&self) -> String {
+        if self.start == Start::Normal {
+            return self.line();
+        }
+        let k: usize = self.h.iter().sum();
+        let c = k + 4;
+        let p = if self.start == Start::Ceil { c + 1 - k } else { c - k };
+        let mut h = self.h.clone();
+        h.push(p);
+        format!("ceil={c} h={} : {} | ", Self::h_text(&h), self.body())
+    }
+
+    /// Removes the phantom thread's (empty) component from a Lean outcome.
+    pub fn strip_phantom(&self, outcome: &str) -> String {
+        if self.start == Start::Normal {
+            return outcome.to_string();
+        }
+        outcome.replacen(&format!("/{}:/", self.threads.len()), "/", 1)
     }
 
     pub fn uses_channels(&self) -> bool {
@@ -221,7 +270,36 @@ pub fn generate(seed: u64, count: usize) -> Vec<String> {
             }
             _ => {}
         }
-        let p = Prog { h, threads };
+        let p = Prog { h, threads, start: Start::Normal };
+        let line = p.line();
+        if !out.contains(&line) {
+            out.push(line);
+        }
+    }
+    out
+}
+
+const CEIL_MENU: [Act; 6] = [Act::Clone, Act::Clone, Act::Mutate, Act::Drop, Act::Drop, Act::Read];
+
+/// `count` distinct programs started at (or one below) the share-count ceiling, over
+/// {clone, mutate, drop, read}: 2-3 threads, 1-2 actions each.
+pub fn generate_ceiling(seed: u64, count: usize) -> Vec<String> {
+    let mut rng = Rng(seed ^ 0x6365_696c_696e_6721);
+    let mut out: Vec<String> = Vec::new();
+    let mut guard = 0;
+    while out.len() < count && guard < 10_000 {
+        guard += 1;
+        let n = 2 + rng.below(2) as usize;
+        let mut threads: Vec<Vec<Act>> = Vec::new();
+        for _ in 0..n {
+            let len = 1 + rng.below(2) as usize;
+            threads.push((0..len).map(|_| CEIL_MENU[rng.below(CEIL_MENU.len() as u64) as usize]).collect());
+        }
+        if !threads.iter().flatten().any(|a| *a == Act::Clone) {
+            continue;
+        }
+        let start = if rng.below(2) == 0 { Start::Ceil } else { Start::CeilMinus1 };
+        let p = Prog { h: vec![1; n], threads, start };
         let line = p.line();
         if !out.contains(&line) {
             out.push(line);
